@@ -488,6 +488,8 @@ func genC19(tier string, emit func(any)) {
 		for _, cont := range listConts {
 			for _, cmd := range []string{"filter", "filter:inverse", "filter:all", "filter:v1", "filter:none"} {
 				emit(C19Case{Roots: "a", Seq: sq, Cont: cont, Cmd: cmd, Var: "list=messy", IO: thorough && cmd != "filter:all" && cmd != "filter:v1" && cmd != "filter:none"})
+				// the plain list without a newline after its last (distinct) entry
+				emit(C19Case{Roots: "a", Seq: sq, Cont: cont, Cmd: cmd, Var: "list=nonl", IO: thorough && cmd != "filter:all" && cmd != "filter:v1" && cmd != "filter:none"})
 			}
 		}
 	}
@@ -501,7 +503,7 @@ func genC19(tier string, emit func(any)) {
 		appSeqs = append(appSeqs, []string{"c", "a", "c", "b"})
 		appConts = []string{"v1", "v2", "v2pad"}
 	}
-	for _, v := range []string{"", "target=a", "target=ab", "target=empty", "target=pad", "target=v1", "ver1", "inverse", "target=a,inverse", "target=ab,list=messy"} {
+	for _, v := range []string{"", "target=a", "target=ab", "target=empty", "target=pad", "target=v1", "ver1", "inverse", "target=a,inverse", "target=ab,list=messy", "target=a,list=nonl", "inverse,list=nonl"} {
 		for _, sq := range appSeqs {
 			for _, cont := range appConts {
 				emit(C19Case{Roots: "a", Seq: sq, Cont: cont, Cmd: "filter:append", Var: v})
